@@ -85,6 +85,21 @@ theorem bare_integer_before_dot_is_rejected (cs l r : List Char) (h : matchFloat
     (hd : NumAgree.startsDot r = true) (hm : NumAgree.hasMark l = false) : matchFloat r = none :=
   TokAgree.bare_then_dot_fails cs l r h hd hm
 
+/-- C10-j (wrap-around typing of `_parse_args`): whatever argument list `_parse_args` returns, its k-th entry was read as an
+    arc flag (`^[01]`, converted with `int`) exactly when the command is `a`/`A` and k mod 7 is 3 or 4 — the large-arc and sweep
+    slots of `_ARC_ARGUMENT_TYPES`, applied modulo the signature so that implicit repeats of an arc are typed like the first —
+    and as a float lexeme otherwise; no other command ever yields a flag.  For every argument text, by induction over the
+    peel loop. -/
+theorem parseArgs_types_by_slot (cmd : Char) (raw : List Char) (args : List Arg) (h : parseArgs cmd raw = .ok args) :
+    ∀ k (hk : k < args.length),
+      (args[k]).isFlag = ((cmd == 'a' || cmd == 'A') && (k % 7 == 3 || k % 7 == 4)) :=
+  PathLex.parseArgs_typing cmd raw args h
+
+/-- non-vacuity: a two-arc argument text whose flags are glued to their neighbours parses, and is typed per slot -/
+example : (match parseArgs 'a' "1 2 3 011 1 2,3,4 1,0-5.5e1".toList with | .ok l => l | .error _ => []) =
+    [.num "1", .num "2", .num "3", .flag false, .flag true, .num "1", .num "1",
+         .num "2", .num "3", .num "4", .flag true, .flag false, .num "-5.5e1"] := by decide +kernel
+
 /-! tie to the source: the regular expressions and tables the scanners stand for -/
 theorem gen_cmd_re : Gen.cmdRe = ("([mzlhvcsqtaMZLHVCSQTA])", 32) := by decide
 theorem gen_separator_re : Gen.separatorRe = ("[, ]+", 32) := by decide
